@@ -47,9 +47,18 @@ def generate(tier, seed):
         c['band_perm'], c['model_perm'] = bp, mp
         c['const'] = 2.0 ** rng.randint(-13, 13) if rng.random() < 0.5 else rng.logdyadic(1e-4, 1e4, 10)
         # history: extra sources on the same bands and an interleaving
-        extra = [fitcase.gen_source(rng, nb, flags=c['src']['flags']) for _ in range(2)]
+        minfit = 2 if mode == '2d' else 1
+        extra = []
+        for _ in range(2):      # other sources use other bands: some flagged 0 / 9 / limits
+            while True:
+                fl = [rng.choice([1, 1, 4, 0, 9, 2, 3]) for _ in range(nb)]
+                if sum(1 for f in fl if f in (1, 4)) >= minfit:
+                    break
+            extra.append(fitcase.gen_source(rng, nb, flags=fl))
         c['others'] = extra
-        hist = [rng.randrange(3) for _ in range(rng.randint(2, 6))]
+        hist = [rng.choice([1, 2])] + [rng.randrange(3) for _ in range(rng.randint(1, 5))]      # start with another source, come back to the base source
+        if 0 not in hist:
+            hist.append(0)
         c['history'] = hist if k % 4 == 0 or tier == 'thorough' else hist[:3]
         cases.append(c)
     return cases
@@ -182,7 +191,9 @@ def judge(case, im, mo):
         fail += _cmp(base, im['scaled'], max(rt, 1e-9), 'brightness', shift=-0.5 * math.log10(case['const']))
     for k, i in enumerate(case['history']):
         h, f = im['hist'][k], im['fresh'][i]
-        if any(h[key] != f[key] and not (key == 'chi2' and all((x == y) or (x != x and y != y) for x, y in zip(h[key], f[key]))) for key in ('av', 'sc', 'chi2', 'model_name', 'model_id')):
+        def same(a, b):
+            return len(a) == len(b) and all((x == y) or (isinstance(x, float) and isinstance(y, float) and x != x and y != y) for x, y in zip(a, b))
+        if any(not same(h[key], f[key]) for key in ('av', 'sc', 'chi2', 'model_name', 'model_id')):
             fail.append('history: fit %d of the sequence (source %d) differs from the fresh-fitter result' % (k, i))
             break
     nontrivial = case['band_perm'] != sorted(case['band_perm']) or len(case['names']) >= 2
